@@ -949,12 +949,14 @@ def plan(prop, tier, seed, known):
         lmod = "SimpleLin" if prop == "C17" else "KvsLin"
         for i in range(3 if q else 24):   # concurrent clients on the same file / overlapping key sets; linearizability search
             jobs.append({"name": "%sconc%d" % (cmd, i), "kind": "slin", "module": lmod, "prop": prop,
-                         "driver": [cmd, "-seed", str(seed * 100 + 60 + i), "-segs", "40" if q else "80", "-steps", "5", "-sconc", str(2 + i % 3), "-disk", "2000"]})
+                         "driver": [cmd, "-seed", str(seed * 100 + 60 + i), "-segs", "100" if q else "200", "-steps", "5", "-sconc", str(2 + i % 3), "-disk", "2000"]})
         for i in range(3 if q else 24):   # ... and every crash point of such histories
             jobs.append({"name": "%sconccrash%d" % (cmd, i), "kind": "slin", "module": lmod, "prop": prop,
                          "driver": [cmd, "-seed", str(seed * 100 + 70 + i), "-segs", "8" if q else "16", "-steps", "4", "-sconc", str(2 + i % 2), "-disk", "2000",
                                     "-crashpoints", "-loss", "2" if q else "5"]})
         if prop == "C18":
+            jobs.append({"name": "kvsgates", "kind": "slin", "module": "KvsLin", "prop": prop,
+                         "driver": ["kvs", "-seed", str(seed), "-segs", "1", "-sconc", "-1", "-disk", "2000"]})
             for i in range(2 if q else 8):
                 jobs.append({"name": "kvsbig%d" % i, "module": mod + ".tla", "cfg": mod + ".cfg", "driver_timeout": 3000,
                              "driver": [cmd, "-seed", str(seed * 100 + 80 + i), "-segs", "1", "-steps", "8" if q else "14", "-disk", "2000",
